@@ -1,5 +1,5 @@
 """Registry: property id -> generator (+ optional extra check, per-command timeout)."""
-import fwd, grad, comp, total
+import fwd, grad, comp, total, rnd
 
 REGISTRY = {
     'C01': {'gen': grad.gen_C01, 'cmd_timeout_ms': 8000},
@@ -19,5 +19,7 @@ REGISTRY = {
     'C15': {'gen': comp.gen_C15},
     'C16': {'gen': comp.gen_C16},
     'C17': {'gen': comp.gen_C17},
+    'C18': {'gen': rnd.gen_C18, 'extra': rnd.extra_C18},
     'C19': {'gen': comp.gen_C19},
+    'C20': {'gen': rnd.gen_C20, 'race': True, 'env': {'HARNESS_NO_RAW': '1'}},
 }
